@@ -108,9 +108,25 @@ Definition accepts_one (st : symtab) (m : mres) (x : pyv) (s : stack) : verdict 
   | _, _ => Rej
   end.
 
-(* ---------- the reducer: x.dtype.__getitem__((x.array_type, x.dim_str)) ---------- *)
+(* ---------- the reducer (fix commit 60b840a in /repo):
+   _unpickle_array_annotation(x.dtype, x.array_type, x.dim_str, x.dtypes): rebuild from what it was written with,
+   then narrow the dtypes when they differ (an annotation built by nesting).  Before the fix the rebuilt
+   annotation kept the OUTER category's dtypes. ---------- *)
+Fixpoint strlist_eqb (a b : list string) : bool :=
+  match a, b with [], [] => true | x :: a', y :: b' => String.eqb x y && strlist_eqb a' b' | _, _ => false end.
+Definition odt_eqb (a b : option (list string)) : bool :=
+  match a, b with None, None => true | Some x, Some y => strlist_eqb x y | _, _ => false end.
+
 Definition reduce_rebuild (b : built) : mres :=
-  make_array (b_cat b) (if b_any b then TAny else TClass (b_cls b)) (b_dimstr b).
+  match make_array (b_cat b) (if b_any b then TAny else TClass (b_cls b)) (b_dimstr b) with
+  | MBuilt o => MBuilt (if odt_eqb (b_dtypes o) (b_dtypes b) then o
+                        else mkbuilt (b_any o) (b_cls o) (b_dtypes b) (b_dims o) (b_dimstr o) (b_cat o))
+  | x => x
+  end.
+
+Definition dims_eqb (a b : dims) : bool := String.eqb (show_parse (Ok a)) (show_parse (Ok b)).
+Definition built_same (a b : built) : bool :=
+  Bool.eqb (b_any a) (b_any b) && Nat.eqb (b_cls a) (b_cls b) && odt_eqb (b_dtypes a) (b_dtypes b) && dims_eqb (b_dims a) (b_dims b).
 
 Definition show_mres (m : mres) : string :=
   match m with
